@@ -41,6 +41,7 @@ var shortDocs = []string{
 // snippets: token-rich fragments; each byte of a snippet is aligned in turn
 // with the refill boundaries of the stream buffer.
 var snippets = []string{
+	"\"" + strings.Repeat("\xff", 300) + "\"", "[\"" + strings.Repeat("\xfe\xff", 260) + "\",1]",
 	`"\ud83d\ude00"`, `"x\ud83d\ude00y\u00e9"`, `{"\u0041":1,"B":"\ud83d\ude00"}`, `{"na\u006de":"v","a\u003cb&c":"w"}`,
 	`null`, `true`, `false`, `-12.5e+10`, `"a\nbé😀c"`, `"é😀日"`, `{"A":1,"B":"x"}`, `[1,2,3]`,
 	`{"key":null,"k2":[true,false]}`, `"\\\"\/"`, `1234567890123`, `{"aA":"日"}`, `[null,true,-0.5,"s",{}]`,
